@@ -7,8 +7,11 @@ CFG = {'assumptions': ["64*len(words) < 2^31 (Go's int32 positions cannot overfl
  'go': {'bitmap.IndexSelect32': 'bitmap.IndexSelect32',
         'bitmap.IndexSelect32R64': 'bitmap.IndexSelect32R64',
         'bitmap.Select32': 'bitmap.IndexSelect32 + bitmap.Select32',
-        'bitmap.Select32R64': 'bitmap.IndexSelect32R64 + bitmap.Select32R64'},
- 'rule': 'cases = corpus + exhaustive sweeps (every non-zero byte at byte positions of a one-word bitmap and as upper '
+        'bitmap.Select32R64': 'bitmap.IndexSelect32R64 + bitmap.Select32R64',
+        'bitmap.Select32/held': 'bitmap.IndexSelect32(ws), index builds on a decoy, bitmap.Select32 twice',
+        'bitmap.Select32R64/held': 'bitmap.IndexSelect32R64(ws), index builds on a decoy, bitmap.Select32R64 twice'},
+ 'rule': 'cases = corpus + held-index cases over ascending word counts 1..70 (index built, decoy indexes built, then the '
+         'first index queried twice; inputs compared before/after) + exhaustive sweeps (every non-zero byte at byte positions of a one-word bitmap and as upper '
          'byte of a 16-bit quarter x all i = select8Lookup through both table-index expressions; all 1- and 2-bit '
          'words x all i; all subsets of 4 positions around every multiple of 8 in 3 words; all-ones bitmaps) + random '
          'bitmaps of 1..40 words in 6 density classes with runs of empty words and empty tails, i forced to 0, n-1, '
